@@ -97,6 +97,15 @@ class TupleV(V):
         return f"({', '.join(map(repr, self.items))})"
 
 
+class NTupleV(TupleV):
+    """typing.NamedTuple / collections.namedtuple instance: a tuple whose items also have names."""
+
+    def __init__(self, items, fields, clsname="namedtuple"):
+        super().__init__(items)
+        self.fields = list(fields)
+        self.clsname = clsname
+
+
 class ListV(V):
     def __init__(self, items: Optional[List[V]] = None, tag="list", opaque_elem=None):
         self.items = items          # None => opaque content
